@@ -270,7 +270,11 @@ func dimTierOf(thorough bool) dimTier {
 		d.args = []inb{{0, 0}, {-500, -1000}, {100, 5000}, {minI32, -1_000_000}, {maxI32, 1_000_000}, {-1, 1}}
 		d.owns = []inb{{7777, -12345}, {-3, 999_999}, {minI32, minI32}, {maxI32, maxI32}, {0, 1}, {1, 0}}
 		d.auxBW = func(bw uint64) []uint64 {
-			return []uint64{0, 1, 20, 50_000, bw - 1, bw, bw + 1, bw + 50_000, maxChanMsat - 1, maxChanMsat}
+			l := []uint64{0, 1, 20, 50_000, bw, bw + 1, bw + 50_000, maxChanMsat - 1, maxChanMsat}
+			if bw > 0 {
+				l = append(l, bw-1)
+			}
+			return l
 		}
 		d.winPols = []polPoint{polNZ, polB, polZero, polC, polBW}
 		d.winWorlds = []string{"fresh", "tiny"}
